@@ -49,6 +49,26 @@ def own_id_guard(ctx, f, what, mapp, secretp):
                    [("contains(own)", cmp_fact("contains", mapp, fld(secretp, "identifier"), True))], ok_sinks(f))
 
 
+def peer_threshold_check(ctx, p2, what):
+    """part2: every received round-one package's commitment has exactly the recipient's threshold many coefficients (compared at
+    full width), else the whole call is refused.  Shared by C08 (wrong-degree contribution) and C09 (a contribution of a
+    concurrent run with another threshold)."""
+    w = Width()
+    mk = lambda item: cmp_fact("eq", w.of(length(lambda t: mentions(t, lambda s: is_field(s, "Package", "commitment")
+                                                                   and mentions(s[1], item)))),
+                               w.of(fld(arg(1), "min_signers")), False)
+    lp = forall_loop(ctx, p2, "LOOPDOM", what,
+                     lambda s: s == ("arg", 2) or (is_call(s, name="values") and s[2][0] == ("arg", 2)),
+                     [("len!=min", mk)])
+    if lp is not None and w.narrow:
+        ctx.violation("SEP-width", p2.key, what,
+                      "the peer commitment's length is compared with the threshold after a narrowing cast (%s): a "
+                      "commitment of length t+65536 passes the check" % "; ".join(sorted(set(w.narrow))), p2.loc)
+    elif lp is not None:
+        ctx.ok("SEP-width", p2.key, what)
+    return lp
+
+
 def share_check(item, own, r1):
     """SecretShare{identifier: own id, signing_share: item.1.signing_share, commitment: r1[item.0].commitment}.verify()"""
     def m(t):
@@ -85,19 +105,7 @@ def run(ctx):
         v = FnView.get(P, p2)
         count_guard(ctx, p2, "G18:package-count", arg(2), arg(1))
         own_id_guard(ctx, p2, "G19:own-identifier-in-round1", arg(2), arg(1))
-        w = Width()
-        mk = lambda item: cmp_fact("eq", w.of(length(lambda t: mentions(t, lambda s: is_field(s, "Package", "commitment")
-                                                                       and mentions(s[1], item)))),
-                                   w.of(fld(arg(1), "min_signers")), False)
-        lp = forall_loop(ctx, p2, "LOOPDOM", "G20:commitment-length==min_signers",
-                         lambda s: s == ("arg", 2) or (is_call(s, name="values") and s[2][0] == ("arg", 2)),
-                         [("len!=min", mk)])
-        if lp is not None and w.narrow:
-            ctx.violation("SEP-width", p2.key, "G20:commitment-length==min_signers",
-                          "the peer commitment's length is compared with the threshold after a narrowing cast (%s): a "
-                          "commitment of length t+65536 passes the check" % "; ".join(sorted(set(w.narrow))), p2.loc)
-        elif lp is not None:
-            ctx.ok("SEP-width", p2.key, "G20:commitment-length==min_signers")
+        peer_threshold_check(ctx, p2, "G20:commitment-length==min_signers")
         pok = lambda item: succ_fact(lambda t: is_call(t, name="verify_proof_of_knowledge")
                                      and tfield(item, 0)(t[2][0])
                                      and fld(tfield(item, 1), "commitment")(t[2][1])
